@@ -525,6 +525,7 @@ pub fn build_world_with(property: &str, tier: &str, seed: u64, tweak: impl FnOnc
 	if property == "C08" || (property == "C02" && w.cfg.trunk >= 85) {
 		build_compaction_reorg_scenario(&mut w);
 		build_horizon_block_scenario(&mut w);
+		build_max_depth_reorg_scenario(&mut w);
 	}
 	Ok(w)
 }
@@ -571,6 +572,10 @@ pub fn chainsim_case(property: &str, tier: &str, seed: u64, case: u64) -> CaseRe
 	let scenario2_ops: Option<Vec<Op>> = scenario_ops_of(&world, &world.scenario2);
 	if scenario2_ops.is_some() {
 		res.probe("horizon_block_scenario_built");
+	}
+	let scenario3_ops: Option<Vec<Op>> = scenario_ops_of(&world, &world.scenario3);
+	if scenario3_ops.is_some() {
+		res.probe("max_depth_reorg_scenario_built");
 	}
 	if property == "C04" {
 		match check_retarget(&world) {
@@ -659,6 +664,12 @@ pub fn chainsim_case(property: &str, tier: &str, seed: u64, case: u64) -> CaseRe
 		}
 		if run == 1 {
 			if let Some(so) = &scenario2_ops {
+				ops = so.clone();
+				scfg.n_nodes = 1;
+			}
+		}
+		if run == 2 {
+			if let Some(so) = &scenario3_ops {
 				ops = so.clone();
 				scfg.n_nodes = 1;
 			}
@@ -793,6 +804,54 @@ fn build_horizon_block_scenario(world: &mut World) {
 	let mut sc = vec![n_before, s];
 	sc.extend(fork);
 	world.scenario2 = sc;
+}
+
+/// `world.scenario3` = [number of blocks before S, S, F1, F2, ..]: S is a head whose height is a
+/// multiple of 10 - compacting there, the tail of the block db coincides with the horizon block (as it
+/// always does with mainnet's parameters) - and the fork leaves from the horizon block itself, head - 20:
+/// the deepest reorganisation that stays inside the horizon. It needs the horizon block's own body,
+/// running sums and spend record, i.e. compaction must keep the tail block.
+fn build_max_depth_reorg_scenario(world: &mut World) {
+	let mut base = world.winner();
+	if world.blocks[base].height < 82 {
+		return;
+	}
+	while (world.blocks[base].height + 1) % 10 != 0 {
+		base = match world.extend_empty(base, 0) {
+			Ok(b) => b,
+			Err(_) => return,
+		};
+	}
+	let n_before = world.blocks.len();
+	let s = match world.extend_empty(base, 0) {
+		Ok(s) => s,
+		Err(_) => return,
+	};
+	let sh = world.blocks[s].height;
+	let mut fp = s;
+	while world.blocks[fp].height + global_horizon() > sh {
+		fp = match world.blocks[fp].parent {
+			Some(p) => p,
+			None => return,
+		};
+	}
+	let mut fork = vec![];
+	let mut f = fp;
+	let mut guard = 0;
+	while (fork.is_empty() || world.blocks[f].total_difficulty <= world.blocks[s].total_difficulty) && guard < 45 {
+		f = match world.extend_empty(f, 9) {
+			Ok(b) => b,
+			Err(_) => return,
+		};
+		fork.push(f);
+		guard += 1;
+	}
+	if world.blocks[f].total_difficulty <= world.blocks[s].total_difficulty {
+		return;
+	}
+	let mut sc = vec![n_before, s];
+	sc.extend(fork);
+	world.scenario3 = sc;
 }
 
 fn global_horizon() -> u64 {
